@@ -697,6 +697,16 @@ func (c *compiler) evalCallExpression(node *ast.CallExpression) (interface{}, er
 			mname = i.Value
 		}
 
+		if !rc.IsValid() {
+			return nil, fmt.Errorf("'%s' is nil, cannot call method '%s' on it", node.Callee.String(), mname)
+		}
+
+		if rc.Kind() == reflect.Ptr && rc.IsNil() {
+			if _, ok := rc.Type().Elem().MethodByName(mname); ok {
+				return nil, fmt.Errorf("'%s' is a nil pointer, cannot call value method '%s' on it", node.Callee.String(), mname)
+			}
+		}
+
 		rv = rc.MethodByName(mname)
 		if !rv.IsValid() && rc.Type().Kind() != reflect.Ptr {
 			ptr := reflect.New(reflect.TypeOf(c))
@@ -741,6 +751,9 @@ func (c *compiler) evalCallExpression(node *ast.CallExpression) (interface{}, er
 	rt := rv.Type()
 	if rt.Kind() != reflect.Func {
 		return nil, fmt.Errorf("%+v (%T) is an invalid function", node.String(), rt)
+	}
+	if rv.IsNil() {
+		return nil, fmt.Errorf("%+v is a nil function", node.String())
 	}
 	rtNumIn := rt.NumIn()
 	isVariadic := rt.IsVariadic()
